@@ -647,7 +647,8 @@ class Message:
                 host, port = hostportsplit(netloc)
 
                 host = refmsg.opt.uri_host or host
-                port = refmsg.opt.uri_port or port
+                if refmsg.opt.uri_port is not None:
+                    port = refmsg.opt.uri_port
 
                 # FIXME: This sounds like it should be part of
                 # hpostportjoin/-split
